@@ -59,6 +59,15 @@ def lstsqForward (n : Nat) (sol : Option (Nat → α)) : Except String (Tab α) 
   | none => .error "assert:lstsq-nan"
   | some x => .ok (tab n x)
 
+/-- `LSTSQ.forward` on a batch: ONE assertion `not torch.any(torch.isnan(solution))` for the whole batch. -/
+def lstsqForwardBatch (n : Nat) (sols : List (Option (Nat → α))) : Except String (List (Tab α)) :=
+  if sols.any (fun s => s.isNone) then .error "assert:lstsq-nan"
+  else .ok (sols.filterMap fun s => s.map (tab n))
+
+/-- `PINV.forward` on a batch: `pinv` and `@` act item by item. -/
+def pinvForwardBatch (m n : Nat) (items : List ((Nat → Nat → α) × (Nat → α))) : List (Tab α) :=
+  items.map fun it => pinvForward m n it.1 it.2
+
 /-! ## Cholesky: executable stand-ins for `cholesky_ex` / `cholesky_solve` -/
 
 /-- forward substitution, first `i` unknowns of `L w = a` (`L` lower triangular) -/
